@@ -680,6 +680,13 @@ Theorem C12_f64_shr_round : forall x (k : N), is_finite 53 1024 x = true -> (k <
 Proof. exact f64c_shr_round. Qed.
 Print Assumptions C12_f64_shr_round.
 
+Theorem C12_f64_sub_round : forall x y, is_finite 53 1024 x = true -> is_finite 53 1024 y = true ->
+  (Rabs (round radix2 (FLT_exp (-1074) 53) ZnearestE (B2R 53 1024 x - B2R 53 1024 y)) < bpow radix2 1024)%R ->
+  is_finite 53 1024 (f64c_sub x y) = true /\
+  B2R 53 1024 (f64c_sub x y) = round radix2 (FLT_exp (-1074) 53) ZnearestE (B2R 53 1024 x - B2R 53 1024 y).
+Proof. exact f64c_sub_round. Qed.
+Print Assumptions C12_f64_sub_round.
+
 (** exactness: [frep x c j] says that [x] is finite, non-negative and holds
     exactly [c * 2^j] ([dy c j]).  Sums and scalings of numbers with at most
     53 significant bits are exact below 2^1024 and +inf from there on *)
@@ -719,6 +726,14 @@ Theorem C12_f64_of_N_overflow : forall c j : N, (c <= 2 ^ 53)%N -> (2 ^ 1024 <= 
   f64_of_N (c * 2 ^ j) = f64c_pos_inf.
 Proof. exact of_N_ovf. Qed.
 Print Assumptions C12_f64_of_N_overflow.
+
+(** the hypotheses of the exactness theorems are satisfiable *)
+Theorem C12_f64_example_exact :
+  frep (f64_of_N 5) 5 0 /\ frep (f64c_add (f64_of_N 5) (f64_of_N 3)) 8 0 /\
+  frep (f64c_shl (f64_of_N 5) 1020) 5 1020 /\ f64c_shl (f64_of_N 5) 1022 = f64c_pos_inf /\
+  frep (f64c_shr (f64_of_N 6) 1) 6 (-1) /\ f64c_shr (f64_of_N 6) 1 = f64_of_N 3.
+Proof. exact ex_frep. Qed.
+Print Assumptions C12_f64_example_exact.
 
 Theorem C12_f64_example :
   f64c_bits_from_u32 1 = 0x3ff0000000000000%Z /\
@@ -829,3 +844,13 @@ Theorem C12_sat_f64_example_history :
   end.
 Proof. exact (conj ex_f64_history_small ex_f64_history_run). Qed.
 Print Assumptions C12_sat_f64_example_history.
+
+(** the hypotheses of C12_sat_f64 hold for the example diagram, and the theorem instantiated *)
+Theorem C12_sat_f64_example_hyps :
+  WF ex_sat_bdd /\ counting_kind (s_kind ex_sat_bdd) /\ nlevels ex_sat_bdd <= 53 /\
+  ref_ok ex_sat_bdd (eref (xe (RN 4))) /\
+  exact_count ex_sat_bdd 1023 (xe (RN 4)) = (5 * 2 ^ 1020)%N /\
+  sat_ref f64_ops ex_sat_bdd 1023 (xe (RN 4)) = Some (f64_of_N (5 * 2 ^ 1020)) /\
+  sat_ref f64_ops ex_sat_bdd 1100 (xe (RN 4)) = Some f64c_pos_inf.
+Proof. exact ex_sat_f64_hyps. Qed.
+Print Assumptions C12_sat_f64_example_hyps.
